@@ -194,6 +194,20 @@ def _pairs(case):
         ref_map = infer([{"a": {"k1": s1}}, {"a": {"k1": s2}}], dkf=["a"])
         variants_map = {"one_mapping": infer([{"a": {"k1": s1, "k2": s2}}], dkf=["a"]),
                         "one_mapping_reversed": infer([{"a": {"k1": s2, "k2": s1}}], dkf=["a"])}
+        # the same two strings as the field v of an object that sits in a list next to a null / a number, one object per sample:
+        # the type of v must be what two plain samples of {"v": s} give (equality shortcuts between container types must look inside)
+        def infer_v(samples):
+            b = pipeline.build(samples, types=conf, do_merge=True, names=False)
+            out = set()
+            for m in b.reg.models:
+                if "v" in m.type:
+                    out.add(repr(ir.canon(m.type["v"])))
+            return "|".join(sorted(out))
+        ref_v = infer_v([{"v": s1}, {"v": s2}])
+        for nm, other in (("object_in_list_with_null", None), ("object_in_list_with_number", 7)):
+            got_v = infer_v([{"a": [{"v": s1}, other]}, {"a": [{"v": s2}, other]}])
+            if got_v != ref_v:
+                viol.append(core.viol("detection_depends_on_context", nm, shape, f"{s1!r},{s2!r}: {got_v} vs separate samples {ref_v} (conf {conf})"))
         late = tuple(t for t in conf if t in pipeline.DATETIME_TYPES) if tuple(conf[-3:]) == pipeline.DATETIME_TYPES else ()
         if late:
             variants["late_registration"] = infer([{"a": [s1]}, {"a": [s2]}], late=late)
